@@ -132,6 +132,9 @@ def read_state(work):
     return raw, files
 
 
+LINES_SEEN = set()  # source lines of command_line.py executed by the tool's child processes (from their event logs)
+
+
 def events(work):
     p = os.path.join(work, "events.log")
     ev, fired = [], False
@@ -140,6 +143,10 @@ def events(work):
             parts = l.rstrip("\n").split("\t")
             if parts[0].isdigit():
                 ev.append((int(parts[0]), parts[1]))
+                if len(parts) > 2 and parts[2].isdigit():
+                    LINES_SEEN.add(int(parts[2]))
+            elif parts[0] == "C" and len(parts) > 1 and parts[1].isdigit():
+                LINES_SEEN.add(int(parts[1]))
             elif parts[0] == "FIRED":
                 fired = True
     return ev, fired
@@ -440,6 +447,8 @@ def run_shard(spec, rec):
         rec.inconc(spec["note"])
     for case in spec["cases"]:
         run_case(case, rec)
+    # the tool runs in child processes: their statement logs are this check's anchor coverage
+    rec.extra["anchor_lines_hit_children"] = {"pydrobert/speech/command_line.py": sorted(LINES_SEEN)}
 
 
 def finish(rec):
